@@ -239,7 +239,7 @@ def run_shard(spec, rng, ctx):
     C.algos()               # import prtpy (+mip) before forking the zygote: its state is the pristine reference
     import mip              # noqa: F401
     zy = Zygote()
-    end = C.budget(spec)
+    end = time.time() + float(spec.get("budget_s", 60))      # wall clock: most of C15's work happens in the forked reference processes
     try:
         while time.time() < end:
             pool = make_pool(rng)
